@@ -155,6 +155,10 @@ fn run_infinite(bytes: &[u8], ctx: &Ctx) -> CaseInfo {
     eval_infinite(&p, ctx)
 }
 
+pub fn run_infinite_pub(bytes: &[u8], ctx: &Ctx) -> CaseInfo {
+    run_infinite(bytes, ctx)
+}
+
 pub fn def() -> PropertyDef {
     PropertyDef {
         id: "C06",
